@@ -27,7 +27,9 @@ def weighted (slots : List Slot) : Option Rat :=
 /-- `count += inv_index_mask` -/
 def count (slots : List Slot) : Nat := (slots.filter (·.live)).length
 
-/-- `_calculate_uncertainty` before the square root: `(v1 / (v1**2 - v2)) * Σ w (x - μ)²`, NaN (`none`) unless count > 1 -/
+/-- `_calculate_uncertainty` before the square root: `(v1 / (v1**2 - v2)) * Σ w (x - μ)²`, NaN (`none`) unless count > 1.
+The division is not totalised: where `v1**2 - v2 = 0` (at most one contributing neighbour has a non-zero weight) the code divides
+by zero and delivers inf or NaN; the model says `none` (undefined) there as well -/
 def variance (slots : List Slot) : Option Rat :=
   match weighted slots with
   | none => none
@@ -38,7 +40,7 @@ def variance (slots : List Slot) : Option Rat :=
       let wt := if s.live then s.w else 0
       let v := if s.live then s.x else 0
       acc + wt * (v - mu) ^ 2) 0
-    if count slots > 1 then some (v1 / (v1 ^ 2 - v2) * ss) else none
+    if count slots > 1 ∧ v1 ^ 2 - v2 ≠ 0 then some (v1 / (v1 ^ 2 - v2) * ss) else none
 
 /-! ### driver -/
 open Wire
